@@ -29,7 +29,7 @@ def lit(v):
     if v is None:
         return 'NULL'
     if isinstance(v, bool):
-        return '1' if v else '0'
+        return 'TRUE' if v else 'FALSE'     # (sqlite: = 1 / 0, and IS [NOT] TRUE keeps its meaning as an operator)
     if isinstance(v, (int, float)):
         return repr(v)
     return "'" + str(v).replace("'", "''") + "'"
@@ -112,7 +112,15 @@ class Printer:
         if isinstance(n, A.UnaryOperation):
             return f'({n.op.upper()} {self.expr(n.args[0])})'
         if isinstance(n, (A.Exists, A.NotExists)):
-            sub = self.select(n.query if hasattr(n, 'query') else n.args[0])
+            inner = n.query if hasattr(n, 'query') else n.args[0]
+            if isinstance(inner, A.Parameter):
+                # EXISTS <result>: true iff the result has rows
+                v = inner.value
+                if not isinstance(v, StepResult):
+                    raise PlanExecError('print', f'unbound parameter {v!r}')
+                has = len(self.interp.first_column(v)) > 0
+                return '(1 = 1)' if has != isinstance(n, A.NotExists) else '(1 = 0)'
+            sub = self.select(inner)
             return f'({"NOT " if isinstance(n, A.NotExists) else ""}EXISTS ({sub}))'
         if isinstance(n, A.BinaryOperation):
             op = n.op.upper()
